@@ -81,6 +81,7 @@ def step (t : Tx) (e : Ev) : Tx × List Out :=
       if sid = 0 then
         let (n, ok) := outflowAdd t.connFlow inc
         if ok then ({ t with connFlow := n }, []) else ({ t with done := true }, [.goaway FLOW_CONTROL])
+      else if sid ≠ 1 then (t, [])      -- a stream the client does not (or no longer) track: ignored
       else
         let (n, ok) := outflowAdd t.streamFlow inc
         if ok then ({ t with streamFlow := n }, []) else ({ t with done := true }, [.rst FLOW_CONTROL])
